@@ -33,6 +33,9 @@ type c12Case struct {
 	// VTT: both lists look like lists read from WebVTT files: a timestamp map each (different offsets) and style "a"
 	// renamed to the identifier the WebVTT reader reserves for STYLE blocks, holding CSS
 	VTT bool `json:"vtt,omitempty"`
+	// Ghosts: the argument's last cue refers to a style and a region that neither list defines (a hand-built list):
+	// the union of the definitions is the union of the two maps
+	Ghosts bool `json:"ghosts,omitempty"`
 }
 
 func init() { register("c12", checkC12) }
@@ -54,6 +57,12 @@ func mkSide(cues []cueSpec, styles, regions []string, bare bool, tag string, bar
 		s.Styles[id] = &astisub.Style{ID: id, InlineStyle: &astisub.StyleAttributes{SSAFontName: tag + id}}
 		if len(bareDefs) > 0 && bareDefs[0] {
 			s.Styles[id].InlineStyle = nil
+		}
+	}
+	for i := 1; i < len(styles); i++ {
+		// inheritance inside each list: a style's parent is the previous style of its own list
+		if len(bareDefs) == 0 || !bareDefs[0] {
+			s.Styles[styles[i]].Style = s.Styles[styles[i-1]]
 		}
 	}
 	for i, id := range regions {
@@ -131,6 +140,11 @@ func checkC12(c c12Case) string {
 		return ""
 	}
 	b, bItems := mkSide(c.B, c.BStyles, c.BRegions, c.BareArgument, "B")
+	if c.Ghosts && len(b.Items) > 0 {
+		last := b.Items[len(b.Items)-1]
+		last.Style = &astisub.Style{ID: "ghost", InlineStyle: &astisub.StyleAttributes{SSAFontName: "ghost"}}
+		last.Region = &astisub.Region{ID: "ghost-region", InlineStyle: &astisub.StyleAttributes{WebVTTWidth: "1%"}}
+	}
 	if c.VTT {
 		for k, side := range []*astisub.Subtitles{a, b} {
 			side.Metadata = &astisub.Metadata{WebVTTTimestampMap: &astisub.WebVTTTimestampMap{Local: time.Duration(k) * 10 * time.Second, MpegTS: int64(900000 * (1 + 3*k))}}
@@ -390,6 +404,7 @@ func TestC12(t *testing.T) {
 			OddKeys:      rapid.IntRange(0, 4).Draw(rt, "oddkeys") == 0,
 		}
 		c.VTT = !c.OddKeys && rapid.IntRange(0, 3).Draw(rt, "vtt") == 0
+		c.Ghosts = rapid.IntRange(0, 3).Draw(rt, "ghosts") == 0
 		if rapid.IntRange(0, 4).Draw(rt, "samefile") == 0 && len(c.A) > 0 {
 			// two readings of the same file, or two files sharing cues: the argument's cues equal cues of the receiver
 			// in every field (distinct objects all the same); with or without definitions
